@@ -124,9 +124,18 @@ func (c *core) execFunc() (*Response, error) {
 		}
 		return resp, nil
 	case <-c.ctx.Done():
-		atomic.SwapInt32(&done, 1)
-		ReleaseResponse(resp)
-		return nil, ErrTimeoutOrCancel
+		if atomic.CompareAndSwapInt32(&done, 0, 1) {
+			// The request goroutine lost the race: it will touch neither resp nor errCh.
+			ReleaseResponse(resp)
+			return nil, ErrTimeoutOrCancel
+		}
+		// The request completed at the same moment and owns resp and errCh until it has
+		// reported; leaving now would recycle both while they are still being written to.
+		if err := <-errCh; err != nil {
+			ReleaseResponse(resp)
+			return nil, err
+		}
+		return resp, nil
 	}
 }
 
